@@ -511,6 +511,16 @@ func run(a vh.Args) {
 						continue // nothing had been acknowledged (shrunk replay)
 					}
 					if kind == "live" && (!probe || r.badWhy != "" || r.badCode == codeCompletedLost) {
+						txt := r.badText()
+						if strings.Contains(rest, "probe=restart-") {
+							txt = "restart-loses-acknowledged-state: " + strings.NewReplacer(
+								"after the power cut the store returns", "the raft peer started by node.startRaft (replayLog + raft.Launch) has",
+								"after the power cut", "after the restart").Replace(txt)
+						}
+						st.Violation(id, fmt.Sprintf("replica %s: %s (event %d of the replica)", k, txt, r.badPos))
+						continue
+					}
+					if false {
 						st.Violation(id, fmt.Sprintf("replica %s: %s (event %d of the replica)", k, r.badText(), r.badPos))
 					}
 				}
@@ -540,6 +550,9 @@ func run(a vh.Args) {
 						st.Count("recoveries_compared")
 						if sh := shadowCommitBefore(evs, e); sh > e.rec.commit {
 							st.Count("commit_index_lagged_after_power_cut")
+						}
+						if sh := shadowCommitBefore(evs, e); strings.Contains(rest, "probe=restart-") && sh != e.rec.commit && !(e.rec.commit == e.rec.snapIndex && sh < e.rec.snapIndex) && reps[e.k].badCode == 0 {
+							st.Violation(id, fmt.Sprintf("replica %s: restart-loses-acknowledged-state: commit index %d was acknowledged, the raft peer started by node.startRaft has %d", e.k, sh, e.rec.commit))
 						}
 					}
 				}
